@@ -1,2 +1,321 @@
-(* Proofs/SamProofs.v *)
+(* Proofs/SamProofs.v — flag bits (over gen/FlagGen.v, regenerated from flag.go
+   on every run) and basic facts about Base.v vocabulary used by the SAM
+   round trip: split/join, decimal printing and parsing, hex. *)
+From Coq Require Import String DecimalZ DecimalPos.
 From Bio Require Import Base.
+From Bio.gen Require Import FlagGen.
+From Bio.Model Require Import Sam.
+From Bio.Spec Require Import SamSpec.
+
+(* ================================================================== *)
+(* Flags                                                               *)
+Section FlagBits.
+Open Scope Z_scope.
+
+Lemma land_bit : forall f n, 0 <= n ->
+  Z.land f (Z.shiftl 1 n) = if Z.testbit f n then 2 ^ n else 0.
+Proof.
+  intros f n Hn. rewrite Z.shiftl_1_l.
+  apply Z.bits_inj'. intros m Hm.
+  rewrite Z.land_spec, Z.pow2_bits_eqb by lia.
+  destruct (Z.eqb_spec n m) as [->|Hne].
+  - destruct (Z.testbit f m); cbn [andb].
+    + rewrite Z.pow2_bits_eqb by lia. now rewrite Z.eqb_refl.
+    + now rewrite Z.bits_0.
+  - rewrite andb_false_r. destruct (Z.testbit f n).
+    + rewrite Z.pow2_bits_eqb by lia. symmetry. now apply Z.eqb_neq.
+    + now rewrite Z.bits_0.
+Qed.
+
+(* f & (1<<n) > 0  reads exactly bit n, for every integer f *)
+Lemma getter_bit : forall f n, 0 <= n ->
+  Z.gtb (Z.land f (Z.shiftl 1 n)) 0 = Z.testbit f n.
+Proof.
+  intros f n Hn. rewrite land_bit by lia.
+  destruct (Z.testbit f n).
+  - apply Z.gtb_lt. apply Z.pow_pos_nonneg; lia.
+  - reflexivity.
+Qed.
+
+Lemma shiftl1_bit : forall n j, 0 <= n -> Z.testbit (Z.shiftl 1 n) j = (n =? j).
+Proof.
+  intros n j Hn. rewrite Z.shiftl_1_l.
+  destruct (Z.ltb_spec j 0).
+  - rewrite Z.testbit_neg_r by lia. symmetry. apply Z.eqb_neq. lia.
+  - apply Z.pow2_bits_eqb. lia.
+Qed.
+
+(* f | (1<<n)  and  f &^ (1<<n)  write exactly bit n *)
+Lemma setter_bit : forall f n (v : bool) j, 0 <= n ->
+  Z.testbit (if v then Z.lor f (Z.shiftl 1 n) else Z.land f (Z.lnot (Z.shiftl 1 n))) j
+  = if j =? n then v else Z.testbit f j.
+Proof.
+  intros f n v j Hn.
+  destruct (Z.ltb_spec j 0) as [Hj|Hj].
+  - rewrite !Z.testbit_neg_r by lia.
+    destruct (Z.eqb_spec j n); [lia|reflexivity].
+  - destruct v.
+    + rewrite Z.lor_spec, shiftl1_bit by lia. rewrite (Z.eqb_sym n j).
+      destruct (j =? n); [apply orb_true_r | apply orb_false_r].
+    + rewrite Z.land_spec, Z.lnot_spec, shiftl1_bit by lia. rewrite (Z.eqb_sym n j).
+      destruct (j =? n); cbn [negb]; [apply andb_false_r | apply andb_true_r].
+Qed.
+
+End FlagBits.
+
+Definition getter_exact (p : string * (Z -> bool)) (q : string * Z) : Prop :=
+  fst p = fst q /\ forall f : Z, snd p f = Z.testbit f (snd q).
+
+Definition setter_exact (p : string * (Z -> bool -> Z)) (q : string * Z) : Prop :=
+  fst p = fst q /\
+  forall (f : Z) (v : bool) (j : Z),
+    Z.testbit (snd p f v) j = if (j =? snd q)%Z then v else Z.testbit f j.
+
+Definition const_exact (p : string * Z) (q : string * Z) : Prop :=
+  fst p = ("Flag" ++ fst q)%string /\ snd p = (2 ^ snd q)%Z.
+
+Lemma flag_getters_exact : Forall2 getter_exact flag_getters flag_spec_bits.
+Proof.
+  unfold flag_getters, flag_spec_bits.
+  repeat (constructor;
+    [split; [reflexivity
+            | intro f; cbn [fst snd];
+              match goal with |- ?g _ = _ => unfold g end;
+              match goal with |- Z.gtb (Z.land _ ?c) _ = _ => unfold c end;
+              apply getter_bit; lia] | ]).
+  constructor.
+Qed.
+
+Lemma flag_setters_exact : Forall2 setter_exact flag_setters flag_spec_bits.
+Proof.
+  unfold flag_setters, flag_spec_bits.
+  repeat (constructor;
+    [split; [reflexivity
+            | intros f v j; cbn [fst snd];
+              match goal with |- Z.testbit (?s _ _) _ = _ => unfold s end;
+              match goal with |- context [Z.lor _ ?c] => unfold c end;
+              apply setter_bit; lia] | ]).
+  constructor.
+Qed.
+
+Lemma flag_bits_are_spec : Forall2 const_exact flag_consts flag_spec_bits.
+Proof.
+  unfold flag_consts, flag_spec_bits.
+  repeat (constructor; [split; reflexivity | ]).
+  constructor.
+Qed.
+
+(* ================================================================== *)
+(* Separator-free strings, split_on / join_with                        *)
+Open Scope N_scope.     (* FlagGen.v opens Z_scope *)
+
+Definition nosep (c : byte) (s : bytes) : Prop := Forall (fun x => (x =? c) = false) s.
+
+Lemma nosep_app : forall c a b, nosep c a -> nosep c b -> nosep c (a ++ b).
+Proof. intros. apply Forall_app. now split. Qed.
+
+Lemma nosep_cons : forall c x a, (x =? c) = false -> nosep c a -> nosep c (x :: a).
+Proof. intros. now constructor. Qed.
+
+Lemma nosep_not_in : forall c s, nosep c s -> ~ In c s.
+Proof.
+  intros c s H Hin. unfold nosep in H. rewrite Forall_forall in H.
+  apply H in Hin. rewrite N.eqb_refl in Hin. discriminate.
+Qed.
+
+Lemma memb_false_neq : forall b bad c, memb b bad = false -> In c bad -> (b =? c) = false.
+Proof.
+  intros b bad c H Hin. unfold memb in H.
+  destruct (N.eqb_spec b c) as [->|]; [|reflexivity].
+  assert (existsb (N.eqb c) bad = true) by (apply existsb_exists; exists c; split; [assumption|apply N.eqb_refl]).
+  congruence.
+Qed.
+
+Lemma clean_nosep : forall bad c s, clean bad s -> In c bad -> nosep c s.
+Proof.
+  intros bad c s H Hin. unfold clean in H. unfold nosep.
+  eapply Forall_impl; [|exact H]. intros b Hb. cbn beta in Hb.
+  eapply memb_false_neq; eassumption.
+Qed.
+
+Lemma clean_sub : forall bad bad' s, clean bad s -> incl bad' bad -> clean bad' s.
+Proof.
+  intros bad bad' s H Hi. unfold clean in *.
+  eapply Forall_impl; [|exact H]. intros b Hb. cbn beta in *.
+  unfold memb in *. destruct (existsb (N.eqb b) bad') eqn:E; [|reflexivity].
+  apply existsb_exists in E. destruct E as [x [Hx Hbx]].
+  assert (existsb (N.eqb b) bad = true) by (apply existsb_exists; exists x; split; [apply Hi; assumption|assumption]).
+  congruence.
+Qed.
+
+Lemma clean_app : forall bad a b, clean bad a -> clean bad b -> clean bad (a ++ b).
+Proof. intros. apply Forall_app. now split. Qed.
+
+Lemma split_on_nosep : forall c s, nosep c s -> split_on c s = [s].
+Proof.
+  intros c s H. induction H as [|x s Hx Hs IH]; [reflexivity|].
+  cbn [split_on]. rewrite Hx, IH. reflexivity.
+Qed.
+
+Lemma split_on_app : forall c a b, nosep c a -> split_on c (a ++ c :: b) = a :: split_on c b.
+Proof.
+  intros c a b H. induction H as [|x s Hx Hs IH].
+  - cbn [app split_on]. now rewrite N.eqb_refl.
+  - cbn [app split_on]. rewrite Hx, IH. reflexivity.
+Qed.
+
+Lemma join_with_cons : forall sep x y l, join_with sep (x :: y :: l) = x ++ sep ++ join_with sep (y :: l).
+Proof. reflexivity. Qed.
+
+Lemma split_join : forall c fs, fs <> [] -> Forall (nosep c) fs ->
+  split_on c (join_with [c] fs) = fs.
+Proof.
+  intros c fs Hne H. induction H as [|x l Hx Hl IH]; [congruence|].
+  destruct l as [|y l].
+  - cbn [join_with]. now apply split_on_nosep.
+  - rewrite join_with_cons. cbn [app]. rewrite split_on_app by assumption.
+    rewrite IH by discriminate. reflexivity.
+Qed.
+
+Lemma join_with_one_snoc : forall sep m x,
+  x ++ concat (map (fun t => sep ++ t) m) = join_with sep (x :: m).
+Proof.
+  intros sep m. induction m as [|t m IH]; intro x.
+  - cbn. apply app_nil_r.
+  - rewrite join_with_cons. rewrite <- IH. cbn [map concat]. now rewrite <- app_assoc.
+Qed.
+
+Lemma join_with_snoc : forall sep l m, l <> [] ->
+  join_with sep l ++ concat (map (fun t => sep ++ t) m) = join_with sep (l ++ m).
+Proof.
+  intros sep l m Hne. induction l as [|x l IH]; [congruence|].
+  destruct l as [|y l].
+  - cbn [app]. change (join_with sep [x]) with x. apply join_with_one_snoc.
+  - change ((x :: y :: l) ++ m) with (x :: y :: (l ++ m)).
+    rewrite !join_with_cons. rewrite <- !app_assoc. f_equal. f_equal.
+    change (y :: l ++ m) with ((y :: l) ++ m). apply IH. discriminate.
+Qed.
+
+Lemma nosep_join : forall c sep fs, nosep c sep -> Forall (nosep c) fs -> nosep c (join_with sep fs).
+Proof.
+  intros c sep fs Hs H. induction H as [|x l Hx Hl IH]; [constructor|].
+  destruct l as [|y l]; [exact Hx|].
+  rewrite join_with_cons. apply nosep_app; [assumption|]. apply nosep_app; assumption.
+Qed.
+
+Lemma drop_cr_nosep : forall s, nosep CR s -> drop_cr s = s.
+Proof.
+  intros s H. induction H as [|x s Hx Hs IH]; [reflexivity|].
+  destruct s as [|y s].
+  - cbn [drop_cr]. change 13 with CR. now rewrite Hx.
+  - change (drop_cr (x :: y :: s)) with (x :: drop_cr (y :: s)). now rewrite IH.
+Qed.
+
+Lemma drop_cr_snoc : forall s, drop_cr (s ++ [CR]) = s.
+Proof.
+  induction s as [|x s IH]; [reflexivity|].
+  destruct s as [|y s]; [reflexivity|].
+  change ((x :: y :: s) ++ [CR]) with (x :: y :: (s ++ [CR])).
+  change (drop_cr (x :: y :: s ++ [CR])) with (x :: drop_cr ((y :: s) ++ [CR])).
+  now rewrite IH.
+Qed.
+
+(* bytes >= 14 are none of TAB CR LF *)
+Lemma ge14_clean : forall s, Forall (fun c => 14 <= c) s -> clean [TAB; CR; LF] s.
+Proof.
+  intros s H. unfold clean. eapply Forall_impl; [|exact H].
+  intros b Hb. cbn beta in Hb. unfold memb, existsb, TAB, CR, LF.
+  destruct (N.eqb_spec b 9); [lia|]. destruct (N.eqb_spec b 13); [lia|].
+  destruct (N.eqb_spec b 10); [lia|]. reflexivity.
+Qed.
+
+(* ================================================================== *)
+(* strconv.Itoa / Atoi                                                 *)
+
+Lemma bytes_uint_uint_bytes : forall u, bytes_uint (uint_bytes u) = Some u.
+Proof. induction u; cbn [uint_bytes bytes_uint]; try rewrite IHu; reflexivity. Qed.
+
+Lemma uint_bytes_ge48 : forall u, Forall (fun c => 48 <= c) (uint_bytes u).
+Proof. induction u; cbn [uint_bytes]; constructor; (lia || assumption). Qed.
+
+Lemma parse_digits_uint_bytes : forall u, u <> Decimal.Nil ->
+  parse_digits (uint_bytes u) = Some (Z.of_uint u).
+Proof.
+  intros u Hu. unfold parse_digits. rewrite bytes_uint_uint_bytes.
+  destruct u; try congruence; reflexivity.
+Qed.
+
+Lemma pos_to_uint_nonnil : forall p, Pos.to_uint p <> Decimal.Nil.
+Proof. exact DecimalPos.Unsigned.to_uint_nonnil. Qed.
+
+Lemma int64b_true : forall z, int64 z -> int64b z = true.
+Proof.
+  intros z [H1 H2]. unfold int64b. apply andb_true_intro. split.
+  - now apply Z.leb_le.
+  - now apply Z.ltb_lt.
+Qed.
+
+(* the first byte of a non-empty digit string is not '+' or '-' *)
+Lemma atoi_digits : forall u, u <> Decimal.Nil ->
+  atoi (uint_bytes u) = if int64b (Z.of_uint u) then Some (Z.of_uint u) else None.
+Proof.
+  intros u Hu. pose proof (parse_digits_uint_bytes u Hu) as Hp.
+  unfold atoi. destruct u; try congruence; cbn [uint_bytes] in *; rewrite Hp; reflexivity.
+Qed.
+
+Lemma atoi_itoa : forall z, int64 z -> atoi (itoa z) = Some z.
+Proof.
+  intros z Hz. pose proof (DecimalZ.of_to z) as Hof.
+  unfold itoa. unfold Z.to_int in *. destruct z as [|p|p].
+  - reflexivity.
+  - rewrite atoi_digits by apply pos_to_uint_nonnil.
+    cbn [Z.of_int] in Hof. rewrite Hof. now rewrite int64b_true.
+  - cbn [Z.of_int] in Hof.
+    unfold atoi. rewrite parse_digits_uint_bytes by apply pos_to_uint_nonnil.
+    cbn [option_map]. rewrite Hof. now rewrite int64b_true.
+Qed.
+
+Lemma itoa_ge45 : forall z, Forall (fun c => 14 <= c) (itoa z).
+Proof.
+  intro z. unfold itoa. destruct (Z.to_int z).
+  - eapply Forall_impl; [|apply uint_bytes_ge48]. cbn beta. intros; lia.
+  - constructor; [lia|]. eapply Forall_impl; [|apply uint_bytes_ge48]. cbn beta. intros; lia.
+Qed.
+
+Lemma itoa_clean : forall z, clean [TAB; CR; LF] (itoa z).
+Proof. intro z. apply ge14_clean, itoa_ge45. Qed.
+
+(* ================================================================== *)
+(* hex                                                                 *)
+
+Lemma hex_digit_ge : forall n, 14 <= hex_digit n.
+Proof. intro n. unfold hex_digit. destruct (n <? 10); lia. Qed.
+
+Lemma hex_encode_clean : forall h, clean [TAB; CR; LF] (hex_encode h).
+Proof.
+  intro h. apply ge14_clean. unfold hex_encode.
+  induction h as [|b h IH]; [constructor|].
+  cbn [flat_map app]. constructor; [apply hex_digit_ge|]. constructor; [apply hex_digit_ge|]. exact IH.
+Qed.
+
+Lemma hex_val_digit : forall n, n < 16 -> hex_val (hex_digit n) = Some n.
+Proof.
+  intros n Hn.
+  assert (H : forallb (fun k => match hex_val (hex_digit k) with Some m => m =? k | None => false end)
+                (map N.of_nat (seq 0 16)) = true) by (vm_compute; reflexivity).
+  rewrite forallb_forall in H. specialize (H n).
+  assert (Hin : In n (map N.of_nat (seq 0 16))).
+  { apply in_map_iff. exists (N.to_nat n). split; [apply N2Nat.id|]. apply in_seq. lia. }
+  apply H in Hin. destruct (hex_val (hex_digit n)); [|discriminate].
+  apply N.eqb_eq in Hin. now subst.
+Qed.
+
+Lemma hex_decode_encode : forall h, Forall (fun b => b < 256) h -> hex_decode (hex_encode h) = Some h.
+Proof.
+  intros h H. induction H as [|b h Hb Hh IH]; [reflexivity|].
+  unfold hex_encode in *. cbn [flat_map app]. cbn [hex_decode].
+  rewrite !hex_val_digit.
+  - rewrite IH. f_equal. f_equal. symmetry. apply N.div_mod. lia.
+  - apply N.mod_lt. lia.
+  - apply N.div_lt_upper_bound; lia.
+Qed.
